@@ -411,7 +411,7 @@ class ControlUnderlyings(Lemma):
     written on the whole spot vector: every control is evaluated from the product's payoff underlying of THIS path (its own
     component), through the four-argument call the engine makes."""
     prop = "C07"
-    cases = (2, 3, "same-class-other-term", "same-class-same-term")
+    cases = (2, 3, "same-class-other-term", "same-class-same-term", "same-class-other-private-term")
 
     def __init__(self):
         self.name = "property:controls-on-the-nth-spot"
@@ -422,6 +422,9 @@ class ControlUnderlyings(Lemma):
             return self.prove_same_class(vc)
         if d == "same-class-same-term":
             return self.prove_same_class(vc, same=True)
+        if d == "same-class-other-private-term":
+            # DefaultTime keeps its only term (the default level) in a private attribute
+            return self.prove_same_class(vc, cls="DefaultTime", ctrl_args=(-0.1,), prod_args=(-0.2,), what="DefaultTime(-0.2), control on DefaultTime(-0.1)")
         nm = f"{self.name}[{d} names]"
         it = vc.interp
         UND = "rpylib.product.underlying:"
@@ -444,22 +447,24 @@ class ControlUnderlyings(Lemma):
         for k in range(min(d, len(res))):
             vc.check(nm + f"::control{k}-is-its-own-product-on-its-own-component", compare(res[k], pay(k, pu[k]), "=="))
 
-    def prove_same_class(self, vc, same=False):
+    def prove_same_class(self, vc, same=False, cls="NthSpot", ctrl_args=(2,), prod_args=None, what=None):
         """the priced product is written on the FIRST spot, the control on the SECOND one (same underlying class, other term):
         the control must be evaluated on its own component of the path, not on the product's payoff underlying;  same=True:
         both on the second spot -- whichever route the code takes (re-use of the product's payoff underlying or its own
         evaluation) the control is valued on the second spot of this path"""
-        nm = f"{self.name}[product on NthSpot({2 if same else 1}), control on NthSpot(2)]"
+        nm = f"{self.name}[product on NthSpot({2 if same else 1}), control on NthSpot(2)]" if what is None else f"{self.name}[product on {what}]"
+        if prod_args is None:
+            prod_args = (2 if same else 1,)
         it = vc.interp
         UND = "rpylib.product.underlying:"
         PAYK = z3.Function("CONTROL_PRODUCT_PAYOFF", z3.IntSort(), z3.RealSort(), z3.RealSort())
         pay = lambda k, u: Sym(PAYK(z3.IntVal(k), as_real_term(lift(u))), "r")
         it.hooks["rpylib.product.product:Product.__call__"] = lambda it_, f, b: pay(b["self"].fields["tag"], [v for k_, v in b.items() if k_ != "self"][0])
-        ctrl = vc.new(UND + "NthSpot", 2)
+        ctrl = vc.new(UND + cls, *ctrl_args)
         own = vc.real("value_of_the_second_spot")
-        it.hooks[UND + "NthSpot.value"] = lambda it_, f, b: own if b["self"] is ctrl else vc.real("value_of_the_first_spot")
+        it.hooks[UND + cls + ".value"] = lambda it_, f, b: own if b["self"] is ctrl else vc.real("value_of_the_first_spot")
         cv = vc.obj("rpylib.product.product:ControlVariates", products=[vc.obj("rpylib.product.product:Product", payoff_underlying=ctrl, tag=0)], prices=[0.0], nb_cvs=1, _underlying_functions=[])
-        vc.method(cv, "initialisation", vc.new(UND + "NthSpot", 2 if same else 1))
+        vc.method(cv, "initialisation", vc.new(UND + cls, *prod_args))
         pu = own if same else vc.real("payoff_underlying_of_the_priced_product")     # same underlying: the engine hands over its value on this path
         path = np.array(vc.reals("path", 4), dtype=object).reshape(2, 2)
         res = list(np.ravel(np.asarray(vc.method(cv, "process", np.array([0.0, 1.0]), path, path, pu), dtype=object)))
@@ -476,6 +481,18 @@ class ControlUnderlyings(Lemma):
             pu = NthSpot(2).value(np.array([0.0, 1.0]), path, path)
             got = float(np.ravel(cvx.process(np.array([0.0, 1.0]), path, path, pu))[0])
             return (abs(got - 1.5) > 1e-12, {"terminal_spots": [1.5, 2.5], "control_on_the_second_spot": got, "its_own_payoff": 1.5})
+        if d == "same-class-other-private-term":
+            from rpylib.product.underlying import DefaultTime
+            from rpylib.product.payoff import Forward
+            cvx = ControlVariates([Product(payoff_underlying=DefaultTime(-0.1), payoff=Forward(strike=0.0), maturity=1.0)], [0.1])
+            cvx.initialisation(DefaultTime(-0.2))
+            times = np.array([0.0, 0.5, 1.0])
+            path = np.array([[1.0, 0.85, 0.85]])            # one jump of log-ratio -0.16: below -0.1, above -0.2
+            jp = np.array([1.0, 0.85, 0.85])               # identity representation: the jump component as a factor
+            pu = DefaultTime(-0.2).value(times, path, jp)
+            got = float(np.ravel(cvx.process(times, path, jp, pu))[0])
+            want = float(np.ravel(DefaultTime(-0.1).value(times, path, jp))[0])
+            return (not (got == want), {"path": path.tolist(), "control_on_level_-0.1": got, "its_own_default_time": want, "default_time_of_the_priced_product's_level_-0.2": float(np.ravel(pu)[0])})
         if d == "same-class-other-term":
             cvx = ControlVariates([Product(payoff_underlying=NthSpot(2), payoff=Vanilla(strike=1.0, payoff_type=PayoffType.CALL), maturity=1.0)], [0.1])
             cvx.initialisation(NthSpot(1))
